@@ -170,40 +170,7 @@ func checkC20(p *Prog, r *Report) {
 		}
 	}
 
-	// ---- R-C20-PAIR
-	r.Begin("R-C20-PAIR", "every Lock of the cache mutex is released on every exit (defer or all paths)", 2)
-	var lockers []*ssa.Function
-	for _, f := range p.Funcs {
-		ops := p.lockOps(f)
-		var mine []lockOp
-		for _, op := range ops {
-			if op.Field == ca.mutexField {
-				mine = append(mine, op)
-			}
-		}
-		if len(mine) == 0 {
-			continue
-		}
-		for _, op := range mine {
-			if !op.Lock {
-				continue
-			}
-			lockers = append(lockers, f)
-			key := p.FuncName(f) + ":Lock"
-			pos := p.InstrPos(op.In)
-			// deferred unlock dominated by... any deferred unlock executed after the lock on all paths, or explicit
-			okAll, off := AllExitsPass(op.In, func(x ssa.Instruction) bool {
-				o, isOp := findOp(mine, x)
-				return isOp && !o.Lock
-			})
-			if okAll {
-				r.OK(key, pos, "released on every path to a return (defer or explicit Unlock)")
-			} else {
-				r.Bad(key, pos, "a return at %s is reachable with the mutex still held (no Unlock/defer on that path): every later FromCache/CleanCache blocks forever", p.InstrPos(off))
-			}
-			// a deferred unlock registered BEFORE the lock would also satisfy AllExitsPass only if after; ok.
-		}
-	}
+	lockers := ruleLockPairing(p, ca, r, "R-C20-PAIR")
 
 	// ---- R-C20-ATOMIC
 	r.Begin("R-C20-ATOMIC", "lookup and fill of the cache are one critical section (one compile per name under contention)", 1)
@@ -350,49 +317,7 @@ func checkC20(p *Prog, r *Report) {
 		}
 	}
 
-	// ---- R-C20-REENTRY
-	r.Begin("R-C20-REENTRY", "no call path from inside the critical section reaches another Lock of the same mutex (self-deadlock)", 1)
-	lockerSet := map[*ssa.Function]bool{}
-	for _, f := range lockers {
-		lockerSet[f] = true
-	}
-	for _, f := range lockers {
-		held := p.heldAt(f, ca.mutexField)
-		for _, b := range f.Blocks {
-			for _, in := range b.Instrs {
-				ci, ok := in.(ssa.CallInstruction)
-				if !ok || !held(in) {
-					continue
-				}
-				if _, isDefer := in.(*ssa.Defer); isDefer {
-					continue
-				}
-				callees := p.Callees(p.CG, ci)
-				var roots []*ssa.Function
-				for _, c := range callees {
-					if p.InPkg(c) {
-						roots = append(roots, c)
-					}
-				}
-				if len(roots) == 0 {
-					continue
-				}
-				reach := p.Reach(p.CG, roots, nil)
-				hit := ""
-				for lf := range lockerSet {
-					if reach[lf] {
-						hit = p.FuncName(lf)
-					}
-				}
-				key := p.FuncName(f) + ":call:" + p.calleeName(ci.Common())
-				if hit != "" {
-					r.Bad(key, p.InstrPos(in), "called while %s is held and reaches %s, which locks the same (non-reentrant) mutex: self-deadlock", ca.mutexField, hit)
-				} else {
-					r.OK(key, p.InstrPos(in), "callees reach %d package functions, none locks %s", countPkg(p, reach), ca.mutexField)
-				}
-			}
-		}
-	}
+	ruleLockReentry(p, ca, lockers, r, "R-C20-REENTRY")
 
 	// ---- R-C20-ISO
 	r.Begin("R-C20-ISO", "per-set state is per instance: the constructor gives every map/pointer field a fresh object; Template.Options is fresh and copied into", 4)
@@ -533,3 +458,91 @@ func isMapType(T types.Type) bool {
 }
 
 var _ = token.NoPos
+
+// ruleLockPairing: every Lock of the cache mutex is released on every exit. Returns the locking functions.
+func ruleLockPairing(p *Prog, ca *cacheAnchors, r *Report, rule string) []*ssa.Function {
+	// ---- R-C20-PAIR
+	r.Begin(rule, "every Lock of the cache mutex is released on every exit (defer or all paths)", 2)
+	var lockers []*ssa.Function
+	for _, f := range p.Funcs {
+		ops := p.lockOps(f)
+		var mine []lockOp
+		for _, op := range ops {
+			if op.Field == ca.mutexField {
+				mine = append(mine, op)
+			}
+		}
+		if len(mine) == 0 {
+			continue
+		}
+		for _, op := range mine {
+			if !op.Lock {
+				continue
+			}
+			lockers = append(lockers, f)
+			key := p.FuncName(f) + ":Lock"
+			pos := p.InstrPos(op.In)
+			// deferred unlock dominated by... any deferred unlock executed after the lock on all paths, or explicit
+			okAll, off := AllExitsPass(op.In, func(x ssa.Instruction) bool {
+				o, isOp := findOp(mine, x)
+				return isOp && !o.Lock
+			})
+			if okAll {
+				r.OK(key, pos, "released on every path to a return (defer or explicit Unlock)")
+			} else {
+				r.Bad(key, pos, "a return at %s is reachable with the mutex still held (no Unlock/defer on that path): every later FromCache/CleanCache blocks forever", p.InstrPos(off))
+			}
+			// a deferred unlock registered BEFORE the lock would also satisfy AllExitsPass only if after; ok.
+		}
+	}
+
+	return lockers
+}
+
+// ruleLockReentry: no call path from inside the critical section reaches another Lock of the same mutex.
+func ruleLockReentry(p *Prog, ca *cacheAnchors, lockers []*ssa.Function, r *Report, rule string) {
+	// ---- R-C20-REENTRY
+	r.Begin(rule, "no call path from inside the critical section reaches another Lock of the same mutex (self-deadlock)", 1)
+	lockerSet := map[*ssa.Function]bool{}
+	for _, f := range lockers {
+		lockerSet[f] = true
+	}
+	for _, f := range lockers {
+		held := p.heldAt(f, ca.mutexField)
+		for _, b := range f.Blocks {
+			for _, in := range b.Instrs {
+				ci, ok := in.(ssa.CallInstruction)
+				if !ok || !held(in) {
+					continue
+				}
+				if _, isDefer := in.(*ssa.Defer); isDefer {
+					continue
+				}
+				callees := p.Callees(p.CG, ci)
+				var roots []*ssa.Function
+				for _, c := range callees {
+					if p.InPkg(c) {
+						roots = append(roots, c)
+					}
+				}
+				if len(roots) == 0 {
+					continue
+				}
+				reach := p.Reach(p.CG, roots, nil)
+				hit := ""
+				for lf := range lockerSet {
+					if reach[lf] {
+						hit = p.FuncName(lf)
+					}
+				}
+				key := p.FuncName(f) + ":call:" + p.calleeName(ci.Common())
+				if hit != "" {
+					r.Bad(key, p.InstrPos(in), "called while %s is held and reaches %s, which locks the same (non-reentrant) mutex: self-deadlock", ca.mutexField, hit)
+				} else {
+					r.OK(key, p.InstrPos(in), "callees reach %d package functions, none locks %s", countPkg(p, reach), ca.mutexField)
+				}
+			}
+		}
+	}
+
+}
